@@ -11,9 +11,11 @@
   NOT proved (out of reach here, stated for the record):
     (full clause)  ‖(A−σI)x − b‖ ≤ c·n·eps·(‖A−σI‖‖x‖+‖b‖) in floating point: needs the Bunch–Kaufman growth/backward-error
                    analysis; the harness checks it on the implementation with c = 100 in long double.
-    (tier 3)       P(A−σI)Pᵀ = L D Lᵀ for the whole loop and `solve = (A−σI)⁻¹ b`: only the per-step Schur-complement identities
-                   (`c10_elim1`, `c10_elim2_*`), the 2x2 solves and the permutation round trip are proved.
-    complex Hermitian scalars: checked on the implementation only.
+    (tier 3)       PROVED in exact arithmetic for the real model: section (8), `c10_factor_partial`, `c10_solve_correct_partial`
+                   (induction over the pivot loop, every pivot-decision sequence); not for the complex model, not in floating point.
+   * `BKLDLTC.*` — the hand model of the complex Hermitian instantiation (Model/BKLDLTC.lean; std::complex as pairs over the real
+     scalar class, bit-exact against `BKLDLT<std::complex<double>>`): section (7).  Its value-level theorems are index safety,
+     permutation structure, status and Lower ≡ Upper; the per-step Schur-complement statements are proved for the real model only.
 -/
 import Mathlib.Algebra.Order.Field.Rat
 import Mathlib.Tactic.NormNum
@@ -27,6 +29,14 @@ import SpectraVerif.Proofs.C10SolveSafe
 import SpectraVerif.Proofs.C10Algebra
 import SpectraVerif.Proofs.C10Elim
 import SpectraVerif.Proofs.C10Pivot
+import SpectraVerif.Proofs.C10IndexC
+import SpectraVerif.Proofs.C10SolveSafeC
+import SpectraVerif.Proofs.C10Cplx
+import Mathlib.Data.Matrix.Mul
+import Mathlib.Algebra.BigOperators.Fin
+import SpectraVerif.Proofs.C10FactorDefs
+import SpectraVerif.Proofs.C10Factor
+import SpectraVerif.Proofs.C10SolveCorrect
 
 namespace C10
 open Gen.BK BKLDLT
@@ -292,6 +302,191 @@ theorem c10_interchange_rows (n : Int) (s : St α) (r1 r2 c1 c2 : Int) (hs : s.n
   (interchange_rows_spec hs hc h1 h2 h3).2
 
 end elim_model
+
+/-! ### (7) the complex Hermitian instantiation `BKLDLT<std::complex<R>>` (Model/BKLDLTC.lean, bit-exact against the code) -/
+
+section cplx
+open BKLDLTC (Cx conjC realC)
+variable {β : Type} [Add β] [Sub β] [Mul β] [Div β] [Neg β] [Sc β]
+
+/-- Index safety of the complex factorization, for every real scalar type `β`, every `Sc β` instance (every outcome of every
+    `abs`/comparison, hence every pivot-decision sequence), every input: all `coeff(i,j)` accesses of `compute` — copy_data incl.
+    the running `dest` pointer, pivot search, the interchanges with their conjugation loops, both eliminations, the last block —
+    satisfy `0 ≤ j ≤ i < n`, all `m_perm[i]` accesses `0 ≤ i < n`. -/
+theorem c10_index_safe_compute_complex (src : Array (Cx β)) (rowMajor : Bool) (n uplo : Int) (shift alpha : β) :
+    (BKLDLTC.compute src rowMajor n uplo shift alpha).s.ok = true ∧ (BKLDLTC.compute src rowMajor n uplo shift alpha).s.n = n :=
+  ⟨(BKLDLTC.compute_good src rowMajor n uplo shift alpha).2, (BKLDLTC.compute_good src rowMajor n uplo shift alpha).1⟩
+
+/-- … and of the complex `solve_inplace` on the result of `compute` (forward substitution, block-diagonal solve, backward
+    substitution with the conjugating `dot`, both permutation passes) -/
+theorem c10_index_safe_complex (src : Array (Cx β)) (rowMajor : Bool) (n uplo : Int) (shift alpha : β) (b : Array (Cx β)) (hn : 1 ≤ n) :
+    (BKLDLTC.solve_inplace (BKLDLTC.compute src rowMajor n uplo shift alpha) b).s.ok = true :=
+  BKLDLTC.solve_good src rowMajor n uplo shift alpha b hn
+
+/-- `m_perm` after the complex `compute`: the same 1x1/2x2 tiling with entries decoding into `[0, n)` -/
+theorem c10_perm_blocks_complex (src : Array (Cx β)) (rowMajor : Bool) (n uplo : Int) (shift alpha : β) (hn : 0 ≤ n) :
+    let f := BKLDLTC.compute src rowMajor n uplo shift alpha
+    f.s.perm.size = n.toNat ∧ Tl (pfn f.s) 0 n ∧ Pre (pfn f.s) n ∧ ∀ i, 0 ≤ i → i < n → -n ≤ pfn f.s i ∧ pfn f.s i < n := by
+  intro f
+  have h := BKLDLTC.compute_pinv src rowMajor n uplo shift alpha hn
+  exact ⟨h.1, h.2.1, h.2.2.1, h.2.2.2.2⟩
+
+/-- status of the complex pivot loop and of `compute`: `Successful` or `NumericalIssue`, never `NotComputed`, every size incl. 1 -/
+theorem c10_status_loop_complex (alpha : β) (fuel : Nat) (k : Int) (s : St (Cx β)) (tags : List Nat) :
+    (BKLDLTC.computeLoop alpha fuel k Successful s tags).2.1 = Successful ∨
+    (BKLDLTC.computeLoop alpha fuel k Successful s tags).2.1 = NumericalIssue :=
+  BKLDLTC.loop_status alpha fuel k s tags
+
+theorem c10_status_total_complex (src : Array (Cx β)) (rowMajor : Bool) (n uplo : Int) (shift alpha : β) :
+    (BKLDLTC.compute src rowMajor n uplo shift alpha).info = Successful ∨ (BKLDLTC.compute src rowMajor n uplo shift alpha).info = NumericalIssue :=
+  BKLDLTC.compute_info_total src rowMajor n uplo shift alpha
+
+/-- The branch condition of `copy_data` as TRANSLATED from the header: the `std::copy` path (which copies memory verbatim, without
+    the conjugation of the element loop) is taken for column-major + `Lower` and for nothing else — in particular never for `Upper`.
+    (A fast path extended to row-major + `Upper` changes the regenerated `copy_fast_path` and this theorem fails.) -/
+theorem c10_copy_fast_path (rowMajor : Bool) (uplo : Int) :
+    copy_fast_path rowMajor uplo = ((!rowMajor) && decide (uplo = 1)) ∧ copy_fast_path rowMajor 2 = false :=
+  ⟨BKLDLTC.copy_fast_path_spec rowMajor uplo, by rw [BKLDLTC.copy_fast_path_spec]; exact BKLDLTC.fast_upper rowMajor⟩
+
+/-- Lower ≡ Upper for Hermitian input, complex scalars: if the stored upper triangle is the conjugate of the stored lower triangle
+    (`conj(src(j,i)) = src(i,j)` for `0 ≤ j ≤ i < n`, with the TRANSLATED `ScalarOp<std::complex<R>>::conj`), the packed copy made
+    from `Upper` equals the one made from `Lower` — the whole state, entry for entry, in BOTH storage orders, for every real scalar
+    type (no field axioms used: also bit for bit in floating point, where the hypothesis for `j = i` asks the imaginary part `y` of
+    a diagonal entry to satisfy `-y = y`, which a float zero does not: there the diagonal imaginary parts may differ in the sign
+    of zero until `ScalarOp::real` erases them in the elimination).  Column-major `Lower` is the `std::copy` path, the other three
+    combinations the element loop; the conjugation on the `Upper` path is what makes this true. -/
+theorem c10_uplo_equal_complex (src : Array (Cx β)) (rowMajor : Bool) (n : Int) (shift : β)
+    (hherm : ∀ i j, 0 ≤ j → j ≤ i → i < n → conjC (BKLDLTC.srcCoeff src rowMajor n j i) = BKLDLTC.srcCoeff src rowMajor n i j) :
+    BKLDLTC.copy_data (initSt n) src rowMajor 2 shift = BKLDLTC.copy_data (initSt n) src rowMajor 1 shift :=
+  BKLDLTC.uplo_equal_complex src rowMajor n shift hherm
+
+/-- hence the whole complex factorization and every solve agree -/
+theorem c10_uplo_equal_compute_complex (src : Array (Cx β)) (rowMajor : Bool) (n : Int) (shift alpha : β)
+    (hherm : ∀ i j, 0 ≤ j → j ≤ i → i < n → conjC (BKLDLTC.srcCoeff src rowMajor n j i) = BKLDLTC.srcCoeff src rowMajor n i j) :
+    BKLDLTC.compute src rowMajor n 2 shift alpha = BKLDLTC.compute src rowMajor n 1 shift alpha := by
+  unfold BKLDLTC.compute; rw [BKLDLTC.uplo_equal_complex src rowMajor n shift hherm]
+
+end cplx
+
+/-- the translated complex `ScalarOp`: `conj` negates the imaginary part and is an involution, `real` zeroes it (any ring) -/
+theorem c10_scalarop_complex {R : Type} [Ring R] [Div R] [Sc R] (z : R × R) :
+    scalarop_conj_c z = (z.1, -z.2) ∧ scalarop_conj_c (scalarop_conj_c z) = z ∧ scalarop_real_c z = (z.1, Sc.ofInt 0) := by
+  refine ⟨rfl, ?_, rfl⟩
+  simp [scalarop_conj_c, Sc.conj]
+
+/-- the Hermitian hypothesis of `c10_uplo_equal_complex` is satisfiable with genuinely complex entries: `[[2, 1-3i], [1+3i, 5]]` over ℚ -/
+example : letI : Sc ℚ := scOfField ⟨id, fun x _ => x, 1, 1⟩
+    ∀ i j : Int, 0 ≤ j → j ≤ i → i < 2 →
+    BKLDLTC.conjC (BKLDLTC.srcCoeff (β := ℚ) #[⟨2, 0⟩, ⟨1, 3⟩, ⟨1, -3⟩, ⟨5, 0⟩] false 2 j i) =
+      BKLDLTC.srcCoeff #[⟨2, 0⟩, ⟨1, 3⟩, ⟨1, -3⟩, ⟨5, 0⟩] false 2 i j := by
+  intro i j h0 h1 h2
+  have hi : i = 0 ∨ i = 1 := by omega
+  have hj : j = 0 ∨ j = 1 := by omega
+  rcases hi with rfl | rfl <;> rcases hj with rfl | rfl <;>
+    first | omega | simp [BKLDLTC.conjC, BKLDLTC.srcCoeff, BKLDLTC.ofPair, BKLDLTC.toPair, scalarop_conj_c, Sc.conj, srcIdx]
+
+/-! ### (8) tier 3: the global identity of the factorization and the correctness of `solve` (real model, exact arithmetic) -/
+
+section tier3
+
+/-- What the packed array means after `compute` (definitions in Proofs/C10FactorDefs.lean): `Lent` is UNIT LOWER TRIANGULAR —
+    block-unit for 2x2 pivots: the sub-diagonal entry of a 2x2 block is `0` in `L` — with the stored multipliers below;
+    `Dent` is BLOCK DIAGONAL with the stored 1x1 entries and the stored symmetric 2x2 blocks `[d11 d21; d21 d22]`, zero elsewhere.
+    `kind (pfn s) c` ∈ {0: 1x1 block, 1: first row of a 2x2 block, 2: second row} is read from the signs in `m_perm`. -/
+theorem c10_LD_structure {K : Type} [Field K] [Sc K] (s : St K) (i j : Int) :
+    Lent s i i = 1 ∧ (i < j → Lent s i j = 0) ∧ (kind (pfn s) j = 1 → Lent s (j + 1) j = 0) ∧
+    (j < i → ¬(kind (pfn s) j = 1 ∧ i = j + 1) → Lent s i j = s.rd i j) ∧
+    Dent s i i = s.rd i i ∧ (kind (pfn s) j = 1 → Dent s (j + 1) j = s.rd (j + 1) j ∧ Dent s j (j + 1) = s.rd (j + 1) j) ∧
+    (i ≠ j → ¬(i = j + 1 ∧ kind (pfn s) j = 1) → ¬(j = i + 1 ∧ kind (pfn s) i = 1) → Dent s i j = 0) := by
+  refine ⟨by simp [Lent], fun h => ?_, fun h => ?_, fun h1 h2 => ?_, by simp [Dent], fun h => ⟨?_, ?_⟩, fun h1 h2 h3 => ?_⟩
+  · unfold Lent; rw [if_neg (by omega), if_pos h]
+  · unfold Lent; rw [if_neg (by omega), if_neg (by omega), if_pos ⟨h, rfl⟩]
+  · unfold Lent; rw [if_neg (by omega), if_neg (by omega), if_neg h2]
+  · unfold Dent; rw [if_neg (by omega), if_pos ⟨rfl, h⟩]
+  · unfold Dent; rw [if_neg (by omega), if_neg (by omega), if_pos ⟨rfl, h⟩]
+  · unfold Dent; rw [if_neg h1, if_neg h2, if_neg h3]
+
+variable {K : Type} [Field K] [LinearOrder K] [IsStrictOrderedRing K] (F : FieldFns K)
+
+/-- TIER 3, factorization (exact arithmetic over any linearly ordered field, every size, every input, EVERY pivot-decision sequence:
+    all five branches of `permutate_mat`, 1x1 and 2x2 pivots, arbitrary interchanges; induction over the pivot loop with the
+    per-step lemmas `c10_pivot_sym`, `c10_pivot2_sym`, `c10_interchange_rows`, `c10_elim1_model`, `c10_elim2_model`):
+    if `compute` reports `Successful`, then   P (A − σI) Pᵀ = L D Lᵀ   entry by entry, where
+      * `shiftedSym src … a b` is the symmetric matrix `A − σI` read from the triangle of the input selected by `uplo`,
+      * `permFn f.permc` is the index map of the compressed permutation (`(P x)[i] = x[permFn f.permc i]`), a bijection of `[0,n)`,
+      * `L`, `D` are `Lent`, `Dent` of the final packed array (`c10_LD_structure`), and every block of `D` is nonsingular.
+    `_partial`: exact arithmetic only — nothing is claimed about the rounded factorization (the harness checks the residual). -/
+theorem c10_factor_partial (src : Array K) (rowMajor : Bool) (n uplo : Int) (shift alpha : K) (hn : 1 ≤ n) :
+    letI : Sc K := scOfField F
+    (compute src rowMajor n uplo shift alpha).info = Successful →
+    let f := compute src rowMajor n uplo shift alpha
+    (∀ i j, 0 ≤ i → i < n → 0 ≤ j → j < n →
+      shiftedSym src rowMajor n uplo shift (permFn f.permc i) (permFn f.permc j) = LDLt f.s n i j) ∧
+    ((∀ i, 0 ≤ i → i < n → 0 ≤ permFn f.permc i ∧ permFn f.permc i < n) ∧ (∀ i j, permFn f.permc i = permFn f.permc j → i = j)) ∧
+    (∀ c, 0 ≤ c → c < n → (kind (pfn f.s) c = 0 → f.s.rd c c ≠ 0) ∧
+      (kind (pfn f.s) c = 1 → f.s.rd c c * f.s.rd (c + 1) (c + 1) - f.s.rd (c + 1) c * f.s.rd (c + 1) c ≠ 0)) :=
+  fun hinfo => ⟨factor_identity_src F src rowMajor n uplo shift alpha hn hinfo, BKLDLT.permFn_bij F src rowMajor n uplo shift alpha (by omega),
+    factor_D_nonsing F src rowMajor n uplo shift alpha hn hinfo⟩
+
+omit [IsStrictOrderedRing K] in
+/-- `shiftedSym` is `A − σI`: the stored triangle of the input, mirrored, minus the shift on the diagonal -/
+theorem c10_shiftedSym (src : Array K) (rowMajor : Bool) (n uplo : Int) (shift : K) (a b : Int) [Sc K] :
+    shiftedSym src rowMajor n uplo shift a b = shiftedSym src rowMajor n uplo shift b a ∧
+    (b ≤ a → shiftedSym src rowMajor n uplo shift a b =
+      (if uplo = 1 then srcCoeff src rowMajor n a b else srcCoeff src rowMajor n b a) - (if a = b then shift else 0)) := by
+  refine ⟨?_, fun h => by simp [shiftedSym, tgt, srcTri, h]⟩
+  unfold shiftedSym
+  by_cases h1 : b ≤ a <;> by_cases h2 : a ≤ b
+  · have : a = b := by omega
+    subst this; rfl
+  · rw [if_pos h1, if_neg h2]
+  · rw [if_neg h1, if_pos h2]
+  · omega
+
+/-- the same identity as a Mathlib matrix equation over `Fin n`: `(A − σI).submatrix π π = L * D * Lᵀ` for the permutation `π` of `Fin n`
+    given by `m_perm` (`A.submatrix π π = P A Pᵀ` for the permutation matrix `P` of `π`) -/
+theorem c10_factor_matrix_partial (src : Array K) (rowMajor : Bool) (n uplo : Int) (shift alpha : K) (hn : 1 ≤ n) :
+    letI : Sc K := scOfField F
+    (compute src rowMajor n uplo shift alpha).info = Successful →
+    let f := compute src rowMajor n uplo shift alpha
+    ∀ π : Fin n.toNat → Fin n.toNat, (∀ i, ((π i : Nat) : Int) = permFn f.permc ((i : Nat) : Int)) →
+      (Matrix.of fun (i j : Fin n.toNat) => shiftedSym src rowMajor n uplo shift ((i : Nat) : Int) ((j : Nat) : Int)).submatrix π π =
+        (Matrix.of fun (i j : Fin n.toNat) => Lent f.s ((i : Nat) : Int) ((j : Nat) : Int)) *
+        (Matrix.of fun (i j : Fin n.toNat) => Dent f.s ((i : Nat) : Int) ((j : Nat) : Int)) *
+        (Matrix.of fun (i j : Fin n.toNat) => Lent f.s ((i : Nat) : Int) ((j : Nat) : Int)).transpose := by
+  intro hinfo f π hπ
+  have hid := factor_identity_src F src rowMajor n uplo shift alpha hn hinfo
+  ext i j
+  have hi := i.2; have hj := j.2
+  rw [Matrix.submatrix_apply, Matrix.of_apply, hπ i, hπ j, hid _ _ (by omega) (by omega) (by omega) (by omega)]
+  simp only [Matrix.mul_apply, Matrix.transpose_apply, Matrix.of_apply, LDLt]
+  rw [Finset.sum_comm, Finset.sum_range]
+  refine Finset.sum_congr rfl (fun c' _ => ?_)
+  rw [Finset.sum_range, Finset.sum_mul]
+
+/-- TIER 3, solve (same setting): if `compute` reports `Successful`, the five phases of `solve_inplace` — `P b`, forward substitution
+    with the (block-)unit `L`, the block-diagonal solve (1x1 division / translated `solve_inplace_2x2`), backward substitution with
+    `Lᵀ`, `Pᵀ` — compose to a solution of `(A − σI) x = b`:  ∑ⱼ (A − σI)(i,j) · x[j] = b[i]  for every row `i`.
+    Proved from the identity and the nonsingular `D` blocks of `c10_factor_partial` (`BKLDLT.SolveC.solve_correct` takes exactly these
+    two facts as hypotheses, for any symmetric `A`).  `_partial`: exact arithmetic only. -/
+theorem c10_solve_correct_partial (src : Array K) (rowMajor : Bool) (n uplo : Int) (shift alpha : K) (hn : 1 ≤ n)
+    (b : Array K) (hb : b.size = n.toNat) :
+    letI : Sc K := scOfField F
+    (compute src rowMajor n uplo shift alpha).info = Successful →
+    ∀ i, 0 ≤ i → i < n →
+      ∑ j ∈ Finset.range n.toNat, shiftedSym src rowMajor n uplo shift i (j : Int) * (solve (compute src rowMajor n uplo shift alpha) b).getD j 0
+        = b.getD i.toNat 0 :=
+  fun hinfo => SolveC.solve_correct F src rowMajor n uplo shift alpha hn b hb (@shiftedSym K _ (scOfField F) src rowMajor n uplo shift)
+    (factor_identity_src F src rowMajor n uplo shift alpha hn hinfo) (factor_D_nonsing F src rowMajor n uplo shift alpha hn hinfo)
+
+end tier3
+
+/-- non-vacuity of (8): over ℚ the 3x3 matrix `[[0,1,2],[1,0,3],[2,3,1]]` (zero leading diagonal: a 2x2 pivot is chosen) factorizes
+    with `info = Successful`, and `solve` returns the exact solution of `A x = (1,2,3)` -/
+example : letI : Sc ℚ := scOfField ⟨id, fun x _ => x, 1, 1⟩
+    (compute (α := ℚ) #[0, 1, 2, 1, 0, 3, 2, 3, 1] false 3 1 0 (64/100)).info = Successful ∧
+    (compute (α := ℚ) #[0, 1, 2, 1, 0, 3, 2, 3, 1] false 3 1 0 (64/100)).s.perm.toList.any (· < 0) = true := by
+  decide +kernel
 
 /-! ### non-vacuity -/
 /-- the zero-diagonal block `[0 1; 1 0]` meets the hypothesis of `c10_solve2_ordered` (second branch: rows exchanged) -/
